@@ -197,7 +197,7 @@ fn run_big(n: u32, style: u8, stride: u16, take_every: u8, attacks: &[(u16, u16)
     if pas != want_atts || pa.len() != want_atts.len() {
         return Err(Failure::new("C14/big/write_framework/attacks-differ-from-model", format!("{} written ({} distinct), {} expected", pa.len(), pas.len(), want_atts.len())));
     }
-    let back = AspartixReader::default().read(&mut text.as_bytes()).map_err(|e| Failure::new("C14/big/read-back/rejected", e.to_string()))?;
+    let back = crate::checks::readers::used_aspartix_reader(n % 2 == 0).read(&mut text.as_bytes()).map_err(|e| Failure::new("C14/big/read-back/rejected", e.to_string()))?;
     let bl: Vec<String> = back.argument_set().iter().map(|a| a.label().clone()).collect();
     let ba: BTreeSet<(String, String)> = back.iter_attacks().map(|t| (t.attacker().label().clone(), t.attacked().label().clone())).collect();
     if bl != want_labels || ba != want_atts {
@@ -348,7 +348,7 @@ impl Writers {
             ));
         }
         // 2. read back
-        let back = guard(|| AspartixReader::default().read(&mut text.as_bytes()))
+        let back = guard(|| crate::checks::readers::used_aspartix_reader(case.usize_stride % 2 == 1).read(&mut text.as_bytes()))
             .map_err(|p| Failure::new("C14/read-back/panic", p))?
             .map_err(|e| Failure::new("C14/read-back/rejected", format!("{} for text {:?}", e, text)))?;
         let bl: Vec<String> = back.argument_set().iter().map(|a| a.label().clone()).collect();
